@@ -41,7 +41,7 @@ def startOpX (fuel : Nat) (s : State) (ti : Nat) (op : Op) : Option State :=
   | 0 => none
   | fuel + 1 =>
     match op with
-    | .start => startEmittersX fuel s ti s.regEm
+    | .start => if s.dIdx.isSome then finishOpX fuel s ti "raised:RuntimeError" else startEmittersX fuel s ti s.regEm
     | .join =>
       match s.dIdx with
       | none => finishOpX fuel s ti "raised:RuntimeError"
